@@ -45,3 +45,15 @@ _loop = _loop[:_loop.find("\nvoid *\nnni_aio_get_prov_data")] if "\nvoid *\nnni_
 _batch = _loop[_loop.find("for (uint32_t i = 0; i < exp_idx; i++)"):]
 _fixed = bool(_re.search(r"if\s*\(\s*\(\s*!\s*q->eq_stop\s*\)\s*&&\s*\(\s*aio->a_expire\s*>=\s*now\s*\)\s*\)\s*\{\s*aio->a_expiring\s*=\s*false;", _re.sub(r"//[^\n]*|#ifdef NNG_VERIF.*?#endif|NNI_VERIF_AIO\([^;]*;", "", _batch, flags=_re.S)))
 extra_text.append("Definition C02_EXPIRE_RECHECK_FIXED : bool := %s.  (* aio.c nni_aio_expire_loop: batch entries are re-checked (still due?) when their turn comes *)" % ("true" if _fixed else "false"))
+
+_d = src("src/core/defs.h")
+_m = _re.search(r"#define\s+NNI_EXPIRE_BATCH\s+(\d+)", _d)
+if _m:
+    Nat("C02_NNI_EXPIRE_BATCH", int(_m.group(1)), "src/core/defs.h NNI_EXPIRE_BATCH")
+else:
+    missing.append("NNI_EXPIRE_BATCH in src/core/defs.h")
+# the scan's shape: a due entry that does not fit into the batch must still lower eq_next
+_scan = _loop[_loop.find("while (aio != NULL)"):_loop.find("for (uint32_t i = 0; i < exp_idx; i++)")]
+_scan_c = _re.sub(r"//[^\n]*|NNI_VERIF_AIO\([^;]*;", "", _scan)
+_ok = bool(_re.search(r"if\s*\(\(q->eq_stop\s*\|\|\s*aio->a_expire\s*<\s*now\)\s*&&\s*\(exp_idx\s*<\s*NNI_EXPIRE_BATCH\)\)\s*\{.*?continue;\s*\}\s*if\s*\(aio->a_expire\s*<\s*q->eq_next\)\s*\{\s*q->eq_next\s*=\s*aio->a_expire;\s*\}\s*aio\s*=\s*nni_list_next\(&q->eq_list,\s*aio\);", _scan_c, _re.S))
+extra_text.append("Definition C02_EXPIRE_SCAN_SHAPE : bool := %s.  (* aio.c nni_aio_expire_loop scan: (due && room) => batch, else lower eq_next - the shape Core/ExpireScan.scan models *)" % ("true" if _ok else "false"))
